@@ -7,7 +7,15 @@ package seclang
 // position i. closingQuoteAt(s, i): position i >= 1 holds a '"' preceded by an even number of backslashes.
 //@ define closingQuoteAt(s string, i int) bool := 1 <= i && i < len(s) && s[i] == '"' && bsRun(s, i-1) % 2 == 0
 
+// cq(s, i): the first position k >= i with closingQuoteAt(s, k), len(s) if there is none (recursion over positions).
+//@ spec cq(s string, i int) int
+//@ axiom cqLen: forall s string :: cq(s, len(s)) == len(s)
+//@ axiom cqHit: forall s string, i int :: 1 <= i && i < len(s) && closingQuoteAt(s, i) ==> cq(s, i) == i
+//@ axiom cqStep: forall s string, i int :: 1 <= i && i < len(s) && !closingQuoteAt(s, i) ==> cq(s, i) == cq(s, i+1)
+
 //@ func cutQuotedString props C16,C07
+//@   ensures cutPos: isnil(result2) ==> len(result0) == cq(s, 1) + 1
+//@   ensures noCut: !isnil(result2) && len(s) >= 1 && s[0] == '"' ==> cq(s, 1) == len(s)
 //@   ensures split: isnil(result2) ==> s == result0 + result1 && result0 == s[0:len(result0)] && result1 == s[len(result0):len(s)]
 //@   ensures quoted: isnil(result2) ==> 2 <= len(result0) && len(result0) <= len(s) && s[0] == '"' && closingQuoteAt(s, len(result0)-1)
 //@   ensures first: isnil(result2) ==> (forall k int :: 1 <= k && k < len(result0)-1 ==> !closingQuoteAt(s, k))
@@ -18,6 +26,7 @@ package seclang
 //@     invariant previousEscapeCount >= 0
 //@     invariant previousEscapeCount == bsRun(s, i-1)
 //@     invariant forall k int :: 1 <= k && k < i ==> !closingQuoteAt(s, k)
+//@     invariant cq(s, 1) == cq(s, i)
 //@     decreases len(s) - i
 
 // ---------------------------------------------------------------- action list (C16, C02)
@@ -108,37 +117,39 @@ package seclang
 // Grammar of the text after "SecRule", relative to the line d with its leading and trailing spaces removed:
 //     d = vars SP SP* quoted SP* [ '"' actions '"' ]
 // vars is the first space-free token; quoted is cut at the first '"' preceded by an even number of backslashes
-// (closingQuoteAt); op is its content with \" unescaped; actions is what is between the enclosing quotes of the rest.
+// (closingQuoteAt / cq); op is its content with \" unescaped; actions is what is between the enclosing quotes of the rest.
+// The cut positions are named with the position functions of the trusted strings.Trim / strings.TrimLeft specs
+// (trimLo, trimHi, trimLeftLo); what they are is *proved* here by the clauses `trimmed`, `leading` and inside tailPart
+// (only spaces are skipped, and what follows is not a space), so nothing but "Trim returns a substring" is taken from them.
 //@ define allSp(s string, i int, j int) bool := forall k int :: i <= k && k < j ==> s[k] == ' '
 //@ define noSpEnds(d string) bool := len(d) > 0 ==> d[0] != ' ' && d[len(d)-1] != ' '
+//@ define noLeadSp(d string) bool := len(d) > 0 ==> d[0] != ' '
 //@ define isDecodedQ(r string, s string) bool := (hasBackslash(s) ==> r == unq(s, len(s))) && (!hasBackslash(s) ==> r == s)
-//@ define actionsPart(A string, actions string) bool :=
-//@     (len(A) == 0 && actions == "") || (len(A) >= 2 && A[0] == '"' && A[len(A)-1] == '"' && actions == A[1:len(A)-1])
-//@ define tailPart(T string, actions string) bool := exists c2 int :: 0 <= c2 && c2 <= len(T) && allSp(T, 0, c2) &&
-//@     (len(T[c2:len(T)]) > 0 ==> T[c2:len(T)][0] != ' ') && actionsPart(T[c2:len(T)], actions)
-// cutAt(Q, m): Q starts with '"' and its first closing quote is at m-1 (Q[0:m] is the quoted string, Q[m:] the rest).
-//@ define cutAt(Q string, m int) bool := 2 <= m && m <= len(Q) && Q[0] == '"' && closingQuoteAt(Q, m-1) &&
-//@     (forall k int :: 1 <= k && k < m-1 ==> !closingQuoteAt(Q, k))
-//@ define opPart(Q string, op string) bool := exists m int :: cutAt(Q, m) && isDecodedQ(op, unquoted(Q[0:m]))
-//@ define actPart(Q string, actions string) bool := exists m int :: cutAt(Q, m) && tailPart(Q[m:len(Q)], actions)
-// leadSp(R, c): R = SP^c '"' ...
-//@ define leadSp(R string, c int) bool := 0 <= c && c < len(R) && allSp(R, 0, c) && R[c] == '"'
 // trimmedAt(data, a, b): data[a:b] is data without its leading and trailing spaces.
 //@ define trimmedAt(data string, a int, b int) bool := 0 <= a && a <= b && b <= len(data) && allSp(data, 0, a) && allSp(data, b, len(data)) && noSpEnds(data[a:b])
+// lineOf(data): data without leading/trailing spaces; afterVars: what follows the first token and its space;
+// unspaced(R): R without its leading spaces.
+//@ define lineOf(data string) string := data[trimLo(data, " "):trimHi(data, " ")]
+//@ define afterVars(d string, vars string) string := d[len(vars)+1:len(d)]
+//@ define unspaced(R string) string := R[trimLeftLo(R, " "):len(R)]
+//@ define skipsSpaces(R string) bool := 0 <= trimLeftLo(R, " ") && trimLeftLo(R, " ") <= len(R) && allSp(R, 0, trimLeftLo(R, " ")) && noLeadSp(unspaced(R))
 //@ define varsPart(d string, vars string) bool := 1 <= len(vars) && len(vars) < len(d) &&
 //@     vars == d[0:len(vars)] && (forall k int :: 0 <= k && k < len(vars) ==> vars[k] != ' ') && d[len(vars)] == ' '
+// cutAt(Q): Q starts with '"' and has a closing quote, the first one at cq(Q, 1): Q[0:cq(Q,1)+1] is the quoted
+// string, Q[cq(Q,1)+1:] the rest.
+//@ define cutAt(Q string) bool := 2 <= len(Q) && Q[0] == '"' && cq(Q, 1) < len(Q)
+//@ define opPart(Q string, op string) bool := cutAt(Q) && isDecodedQ(op, unquoted(Q[0:cq(Q, 1)+1]))
+//@ define actionsPart(A string, actions string) bool :=
+//@     (len(A) == 0 && actions == "") || (len(A) >= 2 && A[0] == '"' && A[len(A)-1] == '"' && actions == A[1:len(A)-1])
+//@ define actPart(Q string, actions string) bool := cutAt(Q) && skipsSpaces(Q[cq(Q, 1)+1:len(Q)]) &&
+//@     actionsPart(unspaced(Q[cq(Q, 1)+1:len(Q)]), actions)
 
-//@ define afterVars(d string, vars string) string := d[len(vars)+1:len(d)]
-//@ define from(R string, c int) string := R[c:len(R)]
-
-// The three clauses share the witnesses a, b (the trimmed line), c (start of the quoted operator) and m (its end):
-// each of them is determined uniquely by trimmedAt / leadSp / cutAt, so the clauses describe one decomposition.
 //@ func parseActionOperator props C16,C07
-//@   ensures varsToken: isnil(err) ==> (exists a int, b int :: trimmedAt(data, a, b) && varsPart(data[a:b], vars))
-//@   ensures operator: isnil(err) ==> (exists a int, b int :: trimmedAt(data, a, b) && len(vars) < len(data[a:b]) &&
-//@       (exists c int :: leadSp(afterVars(data[a:b], vars), c) && opPart(from(afterVars(data[a:b], vars), c), op)))
-//@   ensures actionList: isnil(err) ==> (exists a int, b int :: trimmedAt(data, a, b) && len(vars) < len(data[a:b]) &&
-//@       (exists c int :: leadSp(afterVars(data[a:b], vars), c) && actPart(from(afterVars(data[a:b], vars), c), actions)))
+//@   ensures trimmed: isnil(err) ==> trimmedAt(data, trimLo(data, " "), trimHi(data, " "))
+//@   ensures varsToken: isnil(err) ==> varsPart(lineOf(data), vars)
+//@   ensures leading: isnil(err) ==> skipsSpaces(afterVars(lineOf(data), vars))
+//@   ensures operator: isnil(err) ==> opPart(unspaced(afterVars(lineOf(data), vars)), op)
+//@   ensures actionList: isnil(err) ==> actPart(unspaced(afterVars(lineOf(data), vars)), actions)
 //@   ensures rejectsOneToken: (forall k int :: 0 <= k && k < len(data) ==> data[k] != ' ') ==> !isnil(err)
 //@   ensures failed: !isnil(err) ==> op == "" && actions == ""
 
@@ -152,3 +163,58 @@ package seclang
 
 //@ func (*RuleParser).ParseOperator props C16,C07
 //@   requires rp.rule != nil
+
+// ---------------------------------------------------------------- line assembly
+
+//@ func (*Parser).evaluateLine props C16,C07
+//@   requires p.options != nil && p.options.WAF != nil && !isnil(p.options.WAF.Logger)
+//@   ensures rejectsEmptyAndComment: (l == "" || l[0] == '#') ==> !isnil(result)
+
+//@ func (*Parser).parseString props C16,C07
+//@   requires p.options != nil && p.options.WAF != nil && !isnil(p.options.WAF.Logger)
+// nothingPending: a nil error means every assembled line was evaluated: no continuation text is left in the buffer.
+// (Known to be violated by the code: input ending in a `\` continuation; see the findings. Not decidable by govc:
+// bufio.Scanner has no model and evaluateLine havocs the heap.)
+//@   ensures nothingPending: isnil(result) ==> linebuffer.content == ""
+
+// ---------------------------------------------------------------- SecDefaultAction merge (C02: one disruptive action, the rule's own wins)
+
+// isDisr(l, j): entry j of l is a disruptive action; ownDisr: ... other than "block" (which defers to the default action).
+//@ define isDisr(l []ruleAction, j int) bool := l[j].Atype == plugintypes.ActionTypeDisruptive
+//@ define ownDisr(l []ruleAction, j int) bool := l[j].Atype == plugintypes.ActionTypeDisruptive && l[j].Key != "block"
+
+//@ func mergeActions props C02,C16,C07
+//@   requires oneInRule: forall j int, k int :: 0 <= j && j < k && k < len(origin) ==> !(ownDisr(origin, j) && ownDisr(origin, k))
+//@   ensures atMostOne: forall j int, k int :: 0 <= j && j < k && k < len(result) ==> !(isDisr(result, j) && isDisr(result, k))
+//@   ensures ownWins: (exists k int :: 0 <= k && k < len(origin) && ownDisr(origin, k)) ==>
+//@       (forall j int :: 0 <= j && j < len(result) && isDisr(result, j) ==>
+//@           (exists k int :: 0 <= k && k < len(origin) && ownDisr(origin, k) && result[j].Key == origin[k].Key && result[j].Value == origin[k].Value && result[j].F == origin[k].F))
+//@   ensures inherited: !(exists k int :: 0 <= k && k < len(origin) && ownDisr(origin, k)) ==> len(result) >= 1 &&
+//@       (forall j int :: 0 <= j && j < len(result) - 1 ==> !isDisr(result, j)) &&
+//@       (forall m int :: 0 <= m && m < len(defaults) && isDisr(defaults, m) && (forall k int :: m < k && k < len(defaults) ==> !isDisr(defaults, k)) ==>
+//@           result[len(result)-1].Key == defaults[m].Key && result[len(result)-1].Value == defaults[m].Value && result[len(result)-1].F == defaults[m].F && isDisr(result, len(result)-1))
+//@   loop 1
+//@     invariant -1 <= rangeindex && rangeindex < len(defaults)
+//@     invariant cap(res) == 0 || (base(res) != base(origin) && base(res) != base(defaults))
+//@     invariant forall k int :: 0 <= k && k < len(origin) ==> origin[k].Atype == old(origin[k].Atype) && origin[k].Key == old(origin[k].Key) &&
+//@           origin[k].Value == old(origin[k].Value) && origin[k].F == old(origin[k].F)
+//@     invariant forall k int :: 0 <= k && k < len(defaults) ==> defaults[k].Atype == old(defaults[k].Atype) && defaults[k].Key == old(defaults[k].Key) &&
+//@           defaults[k].Value == old(defaults[k].Value) && defaults[k].F == old(defaults[k].F)
+//@     invariant forall j int :: 0 <= j && j < len(res) ==> !isDisr(res, j)
+//@     invariant forall m int :: 0 <= m && m <= rangeindex && isDisr(defaults, m) && (forall k int :: m < k && k <= rangeindex ==> !isDisr(defaults, k)) ==>
+//@           da.Key == defaults[m].Key && da.Value == defaults[m].Value && da.F == defaults[m].F && da.Atype == plugintypes.ActionTypeDisruptive
+//@   loop 2
+//@     invariant -1 <= rangeindex && rangeindex < len(origin)
+//@     invariant cap(res) == 0 || (base(res) != base(origin) && base(res) != base(defaults))
+//@     invariant forall k int :: 0 <= k && k < len(origin) ==> origin[k].Atype == old(origin[k].Atype) && origin[k].Key == old(origin[k].Key) &&
+//@           origin[k].Value == old(origin[k].Value) && origin[k].F == old(origin[k].F)
+//@     invariant forall k int :: 0 <= k && k < len(defaults) ==> defaults[k].Atype == old(defaults[k].Atype) && defaults[k].Key == old(defaults[k].Key) &&
+//@           defaults[k].Value == old(defaults[k].Value) && defaults[k].F == old(defaults[k].F)
+//@     invariant hasDa <==> (exists k int :: 0 <= k && k <= rangeindex && ownDisr(origin, k))
+//@     invariant forall j int :: 0 <= j && j < len(res) && isDisr(res, j) ==>
+//@           (exists k int :: 0 <= k && k <= rangeindex && ownDisr(origin, k) && res[j].Key == origin[k].Key && res[j].Value == origin[k].Value && res[j].F == origin[k].F)
+//@     invariant forall j int, k int :: 0 <= j && j < k && k < len(res) ==> !(isDisr(res, j) && isDisr(res, k))
+
+// ---- build-cache keys (C13)
+//@ func directiveSecAuditLogRelevantStatus props C13
+//@   memoize re
